@@ -98,6 +98,7 @@ var c17Tables = []*c17Table{
 	{"less", [][]string{{"==", "EqMM", "Eq"}, {"<", "Less", "LessS"}, {"+", "Add"}}, c17All},
 	{"methods", [][]string{{"+", "MAdd"}, {"==", "MEq"}}, c17Structs},
 	{"method-and-field", [][]string{{"+", "AddInt", "MAdd"}, {"==", "EqMD", "MEq"}}, c17Structs},
+	{"method-first", [][]string{{"+", "MAdd", "AddInt", "Concat"}, {"==", "MEq", "EqMD"}, {"-", "Sub"}}, c17Structs}, // a method candidate BEFORE field candidates: the receiver offset is per candidate
 	{"ptr-method", [][]string{{"-", "PSub"}, {"+", "Add"}}, []string{"ptr"}},
 	{"any", [][]string{{"+", "Add", "AddAny"}}, c17All},
 	{"builtin-types", [][]string{{"+", "StrCat", "IntPlus", "Add"}}, c17All},
